@@ -109,8 +109,12 @@ class NonDominatedPriority(MOPriority):
         self.max_num_samples = max_num_samples
 
     def priority_unsafe(self, objectives: np.array) -> np.array:
-        return np.array(
-            nondominated_sort(
-                X=objectives, dim=self.dim, max_items=self.max_num_samples
-            )
+        # ``nondominated_sort`` returns the indices of the items, sorted from
+        # best to worst. The priority of an item is its position in this order
+        # (items beyond ``max_num_samples`` share the lowest priority)
+        order = nondominated_sort(
+            X=objectives, dim=self.dim, max_items=self.max_num_samples
         )
+        priorities = np.full(objectives.shape[0], len(order), dtype=int)
+        priorities[order] = np.arange(len(order))
+        return priorities
